@@ -208,6 +208,11 @@ def series_mods():
     return my_math, pitch_and_intensity
 
 
+def clampi(v, lim=1000000):
+    """integers handed to TLC stay far inside 32 bits whatever the code under test returns"""
+    return int(max(-lim, min(lim, v)))
+
+
 def run_series(vec, eid, workdir):
     my_math, pai = series_mods()
     op = vec["op"]
@@ -223,12 +228,12 @@ def run_series(vec, eid, workdir):
                 ret = [int(round(v * sc)) if abs(v * sc - round(v * sc)) < 1e-6 else -99999 for v in r]
             elif op == "znorm":
                 r = my_math.znormalizeData(list(xs))
-                ret = [int(round(v * 1000)) for v in r]
+                ret = [clampi(round(v * 1000)) for v in r]
             elif op == "rms":
-                ret = int(round(my_math.rms(list(xs)) * 100 * sc))
+                ret = clampi(round(my_math.rms(list(xs)) * 100 * sc))
             elif op == "pitch":
                 r = pai.getPitchMeasures(list(xs), "f", "l", a["window"] if a["window"] >= 0 else None, a["filterZero"])
-                ret = [int(round(v * 100)) for v in r]
+                ret = [clampi(round(v * 100)) for v in r]
             elif op == "jumps":
                 pl = [(float(i + 1), float(x)) for i, x in enumerate(xs)]
                 errs, _ = pai.detectPitchErrors(pl, a["thr"] / 100.0)
@@ -270,6 +275,14 @@ def run_series(vec, eid, workdir):
                 inv = {F.fkey(v): i for i, v in enumerate(vals)}
                 ret = [[inv.get(F.fkey(c), -5) for c in row] for row in r]
                 ev["rows"] = vec["rows"]
+            elif op == "speakerz":
+                # znormalizeSpeakerData without zero filtering: column a["index"] z-normalised, rows and other columns kept
+                rows = [tuple([float(i)] + [float(x) if k + 2 == a["index"] else 7.5 + k for k in range(a["ncol"] - 1)]) for i, x in enumerate(xs)]
+                rows = [tuple(float(x) if k + 1 == a["index"] else r[k] for k in range(a["ncol"])) for r, x in zip(rows, xs)]
+                r = my_math.znormalizeSpeakerData(rows, a["index"] - 1, False)
+                ret = [clampi(round(row[a["index"] - 1] * 1000)) for row in r]
+                ev["kept"] = bool(len(r) == len(rows) and all(len(o) == len(n) and all(o[k] == n[k] for k in range(len(o)) if k + 1 != a["index"])
+                                                              for o, n in zip(rows, r)))
     except Exception as ex:  # noqa
         st = type(ex).__name__
     if "xs" in vec:
@@ -288,7 +301,7 @@ def rand_series_vectors(n, seed):
     rng = random.Random(seed * 733 + 29)
     out = []
     for _ in range(n):
-        op = rng.choice(["median", "median", "znorm", "rms", "pitch", "pitch", "jumps", "listing", "rowfilter"])
+        op = rng.choice(["median", "median", "znorm", "rms", "pitch", "pitch", "jumps", "listing", "rowfilter", "speakerz"])
         L = rng.randint(0, 15)
         style = rng.random()
         if style < 0.3:
@@ -304,6 +317,11 @@ def rand_series_vectors(n, seed):
             if L < 2 or len(set(xs)) < 2:
                 continue                                                     # standard deviation undefined
             out.append({"op": op, "xs": xs, "args": {"k": 0}})
+        elif op == "speakerz":
+            if L < 2 or len(set(xs)) < 2:
+                continue
+            ncol = rng.randint(1, 3)
+            out.append({"op": op, "xs": xs, "args": {"ncol": ncol, "index": rng.randint(1, ncol)}})
         elif op == "rms":
             if L == 0:
                 continue
